@@ -100,13 +100,13 @@ def raw256(case, ctx):
               "raw/to_hex/writes-past-declared-size")
     o = Buf(256, fill=0); l.sm9_z256_to_bits(z_in(a), o)
     ctx.check(o.raw() == ("{:0256b}".format(a)).encode(), "z256_to_bits(%x)" % a, "raw/to_bits")
-    # rand_range: entropy is read limb-wise; candidates >= range are rejected
+    # rand_range: entropy is read limb-wise; candidates that are zero or >= range are rejected
     rng = b if b else 1
     s = shim(); s.stream(a & 0xFFFFFFFF, script=IO.entropy_for(a))
     r = z_out(); ret = l.sm9_z256_rand_range(r, z_in(rng))
     draws = [int.from_bytes(s.draw(i), "little") for i in range(s.draws())]
     s.reset()
-    acc = [d for d in draws if d < rng]
+    acc = [d for d in draws if 0 < d < rng]
     if ret == 1:
         ctx.check(len(acc) == 1 and acc[0] == draws[-1] and z_get(r) == acc[0] and draws[0] == a,
                   "rand_range(range=%x) returned %x after draws %s" % (rng, z_get(r), hx(draws)), "raw/rand_range")
@@ -201,12 +201,12 @@ def _hexline(vals):
 
 
 def _rand_check(ctx, l, fn, n, seedv, key):
-    """fpX_rand under scripted entropy: every coordinate is the next accepted draw below p."""
+    """fpX_rand under scripted entropy: every coordinate is the next accepted draw in [1, p-1]."""
     s = shim(); s.stream(seedv & 0xFFFFFFFFFFFF, script=IO.entropy_for(seedv % R))
     r = fe_out(n); ret = fn(r)
     draws = [int.from_bytes(s.draw(i), "little") for i in range(s.draws())]
     s.reset()
-    acc = [d for d in draws if d < PP]
+    acc = [d for d in draws if 0 < d < PP]
     got = fe_get(r, n)
     ctx.check(ret == 1 and len(acc) == n and all(g < PP for g in got) and sorted(got) == sorted(acc),
               "rand: ret=%d coordinates %s, accepted draws %s" % (ret, hx(got), hx(acc)), key)
